@@ -198,6 +198,18 @@ theorem lle_nonneg_of_bounded (c : Cls K) (r : Rows K) (hl : ∀ i < c.n, 0 ≤ 
       exact ⟨le_of_eq (hlp i hi).symm, hpool i hi⟩
     | some q => cases h
 
+/-- **Non-negativity of the remembered-coefficients branch for EVERY Rachford–Rice root.**  `phase_fraction` ends in
+`as_valid_fraction`; with that clip the cached branch of `LLE.__call__` keeps both liquids non-negative whatever
+the closed-form / numerical root was (below 0 when the composition has drifted out of the two-liquid envelope
+on one side, above 1 on the other), given only non-negative remembered coefficients. -/
+theorem lle_cached_nonneg_for_every_root (c : Cls K) (r : Rows K) (hl : ∀ i < c.n, 0 ≤ get r.l i)
+    (hL : ∀ i < c.n, 0 ≤ get r.L i) (raw : K) (Kp : List K) (top : Option Nat)
+    (hK : ∀ i ∈ lleIndex c (llePool c r).L, 0 ≤ get Kp i) (hlle : ∀ i ∈ c.lle, i < c.n)
+    (r' : Rows K) (h : lleCall c r (some (.cacheRaw raw Kp)) top = .ok r') :
+    ∀ i < c.n, 0 ≤ get r'.l i ∧ 0 ≤ get r'.L i :=
+  lle_nonneg_of_bounded c r hl hL _ top
+    (fun q hq => by cases hq; exact fun i hi => mul_nonneg (asValidFraction_bounds raw).1 (hK i hi)) hlle r' h
+
 /-! ## SLE -/
 
 /-- **Conservation, SLE**: for every solubility `x` the solver returns, the l+s total of the solute is unchanged. -/
@@ -796,6 +808,11 @@ example : ((vleHistoryR cEx none
        .plain rEx [.solve [1, 1/2, 0, 0], .setFlowsReg]]).map fun r =>
       match r with | some (.ok (r', _)) => some (r'.g, r'.l) | _ => none)
     = [some ([1, 1/2, 1/2, 0], [1, 3/2, 0, 5/4]), none, some ([1, 1/2, 1/2, 0], [1, 3/2, 0, 5/4])] := by
+  decide +kernel
+
+/-- cached branch with a root below 0 (composition drifted out of the envelope): the clip sends everything to `L` -/
+example : (match lleCall cEx rLle (some (.cacheRaw (-1/10) [2, 1, 0, 1/2])) none with
+    | .ok r' => (r'.l, r'.L) | .error _ => ([], [])) = ([0, 0, 0, 0], [4, 2, 0, 2]) := by
   decide +kernel
 
 end NonVacuity
